@@ -2840,6 +2840,8 @@ class TensorDict(TensorDictBase):
             dest._is_shared = False  # since they are mutually exclusive
 
         for key, value in self.items():
+            if prefix is not None:
+                _check_memmap_key(key)
             type_value = type(value)
             if _is_tensor_collection(type_value):
                 dest._tensordict[key] = value._memmap_(
@@ -3006,6 +3008,7 @@ class TensorDict(TensorDictBase):
             if result_tmp is None:
                 result_tmp = result.empty()
                 if result._memmap_prefix is not None:
+                    _check_memmap_key(key_str)
                     result_tmp.memmap_(prefix=result._memmap_prefix / key_str)
                     metadata = _load_metadata(result._memmap_prefix)
                     _update_metadata(
@@ -3048,6 +3051,7 @@ class TensorDict(TensorDictBase):
         if dtype is None:
             dtype = torch.get_default_dtype()
         if last_node._memmap_prefix is not None:
+            _check_memmap_key(last_key)
             metadata = _load_metadata(last_node._memmap_prefix)
             memmap_tensor = _populate_empty(
                 key=last_key,
@@ -3103,6 +3107,7 @@ class TensorDict(TensorDictBase):
             dtype = torch.get_default_dtype()
 
         if last_node._memmap_prefix is not None:
+            _check_memmap_key(last_key)
             metadata = _load_metadata(last_node._memmap_prefix)
             memmap_tensor = _populate_storage(
                 key=last_key,
@@ -3159,6 +3164,7 @@ class TensorDict(TensorDictBase):
             )
 
         if last_node._memmap_prefix is not None:
+            _check_memmap_key(last_key)
             metadata = _load_metadata(last_node._memmap_prefix)
             memmap_tensor = _populate_memmap(
                 dest=last_node,
@@ -4865,7 +4871,17 @@ def _populate_storage(
     return memmap_tensor
 
 
+def _check_memmap_key(key):
+    # _save_metadata describes the tensordict itself under these names of meta.json
+    if key in ("shape", "device", "_type"):
+        raise ValueError(
+            f"An entry named {key!r} cannot be saved in a memory-mapped tensordict: the name is "
+            f"used by the metadata file. Rename the entry before calling memmap / save."
+        )
+
+
 def _update_metadata(*, metadata, key, value, is_collection):
+    _check_memmap_key(key)
     if not is_collection:
         metadata[key] = {
             "device": str(value.device),
